@@ -41,9 +41,12 @@ Clauses(S, o) ==
 Verdict(r) ==
   \* a public view that disagrees with the tables it is a view of (members, memberships, ids, counts)
   IF r.viewanom # <<>> THEN <<"C06:" \o r.viewanom[1]>> ELSE
-  \* the tables hold something no call put there (a label of the caller's own container, a view that cannot
-  \* be projected): the harness reached this state through public calls only, so it is a finding here too
-  IF r.postanom # <<>> THEN <<"C06:state-holds-what-no-call-put-there." \o r.postanom[1]>> ELSE
+  \* the tables hold what the caller put into its own container after the call returned (the harness, as a caller,
+  \* changes every container it handed over): views and statistics then describe something no call built.
+  \* Other states that cannot be projected (labels created by calls outside the documented domain) are skipped.
+  IF \E k \in DOMAIN r.postanom : r.postanom[k] = "unknown-node-label:'__caller_owned__'"
+    THEN <<"C06:state-holds-the-callers-own-container">> ELSE
+  IF r.postanom # <<>> THEN <<"tainted">> ELSE
   \* an accessor of a view / statistic raised: reported as such (its placeholder value is not compared)
   IF r.obs.errs # <<>> THEN <<"C06:raised." \o r.obs.errs[1]>> ELSE
   LET S == FromJ(r.post) IN
